@@ -357,6 +357,12 @@ def run(chk):
         from . import c07
         return True, "see C07.R5 (flush reaches every signal)", ["C07.R5"]
     common.arg_agreement_rule(chk, P, "C12", [("emit_otlp", "src/client.rs"), ("emit_otlp", "src/client/http.rs")], 10)
+    common.name_flavour_rule(chk, P, "C12.R9:named-constructors", "http/grpc and proto/json constructors build the transport, encoding and service path "
+                             "their names say; each signal module names its own collector service",
+                             lambda b: b.crate == "emit_otlp" and "/client" in b.file and "::tests::" not in b.key,
+                             [("http", "grpc"), ("proto", "json")], {"::client::logs::": "logs", "::client::traces::": "trace", "::client::metrics::": "metrics"}, 12)
+    common.variant_arm_agreement_rule(chk, P, "C12.R9:encoding-arms", "protobuf arms use the protobuf encoder, content type and label, JSON arms the JSON ones",
+                                      lambda b: b.crate == "emit_otlp" and "generated" not in b.file and "::tests::" not in b.key, ("Proto", "Json"), 8)
     common.config_wiring_rule(chk, P, "C12.R9:transport-configuration", "the transport's configured headers and compression switch reach the HTTP connection "
                               "of either protocol version unchanged", ["emit_otlp::client::OtlpTransportBuilder::build"], 4)
     common.results_inspected_rule(
